@@ -133,10 +133,22 @@ Find == /\ Ev.ev = "Find"
         /\ IF \E i \in 1..Len(Ev.ans) : Ev.ans[i] \in removed THEN Note("RemovedStaysOut", Ev.via, "any") ELSE Quiet
         /\ nchk' = nchk + 1
         /\ UNCHANGED <<seg, cf, trust, mark, S, removed, pareto, vacEq>>
+(* trust selection enabled on the engine (a real EigenTrustEngine is the provider): the storage targets are a selection, in the
+   sense of SelBroken, from the 3n closest members (the engine's candidate widening for storage) under the storage
+   configuration, and as many as the eligible candidates allow.  Ev.tr[x + 1] is the trust record of model id x as the
+   provider reported it at the call, values being dense ranks (order-preserving; Ev.thr is the rank of the threshold). *)
+StoreCands == LET c3 == Closest(S, Ev.key, 3 * Ev.n) IN [i \in 1..Len(c3) |-> [id |-> c3[i], t |-> Ev.tr[c3[i] + 1]]]
+StoreEligible == {i \in 1..Len(StoreCands) : ~(Ev.excl /\ Below(StoreCands[i].t, Ev.thr)) /\ StoreCands[i].t.k # "nan"}
+StoreTrustBroken ==
+  LET b == SelBroken(StoreCands, Ev.ans, Ev.key, Ev.n, Ev.excl, Ev.thr) IN
+  IF b # "" THEN b
+  ELSE IF Len(Ev.ans) # (IF Cardinality(StoreEligible) < Ev.n THEN Cardinality(StoreEligible) ELSE Ev.n) THEN "SelCount"
+  ELSE ""
 (* trust selection disabled: the storage targets are exactly the closest members in distance order *)
 Store == /\ Ev.ev = "Store"
          /\ IF \E i \in 1..Len(Ev.ans) : Ev.ans[i] \in removed THEN Note("RemovedStaysOut", "store", "any")
             ELSE IF ~Ev.trustSel /\ Ev.ans # Closest(S, Ev.key, Ev.n) THEN Note("DisabledIsClosest", "store", "any")
+            ELSE IF Ev.trustSel /\ StoreTrustBroken # "" THEN Note(StoreTrustBroken, "store", "trust-selection")
             ELSE Quiet
          /\ nchk' = nchk + 1
          /\ UNCHANGED <<seg, cf, trust, mark, S, removed, pareto, vacEq>>
